@@ -36,7 +36,7 @@ def dfs_order_root(case, failing):
 
 def run(ctx):
     quick = ctx["tier"] == "quick"
-    args = ["--count", "1500" if quick else "12000", "--maxn", "120" if quick else "250",
+    args = ["--count", "1000" if quick else "5000", "--maxn", "60" if quick else "100",
             "--mode", "quick" if quick else "thorough"]
     r = codec.run_simple("C14", ctx, "dfs", args, oracle_aspects=ORACLE, corr_aspects=CORR,
                          nontrivial=nontrivial, timeout=3000)
@@ -44,7 +44,7 @@ def run(ctx):
                  "root sequence of length <= n followed by a second call without reset (n <= 3), the full root range, "
                  "and random scenarios of 1-4 visit calls (reset or not, seven filter families, interruptions at an "
                  "event index or at the first on-stack revisit); sampled digraphs on 4 and 5 nodes; random graphs to "
-                 "120/250 nodes (DAGs under a hidden order, DAG + one back arc or self-loop, long chains, dense, "
+                 "60/100 nodes (DAGs under a hidden order, DAG + one back arc or self-loop, long chains, dense, "
                  "trees with forward/cross arcs, BV-style); roots outside the graph (panic expected); the three "
                  "flavours run on every scenario; top_sort, is_acyclic and DfsOrder on every graph; "
                  "non-trivial = at least 2 nodes and one arc; distinct = different (graph, scenario)")
